@@ -7,6 +7,7 @@ import (
 
 	"verif/engine/enumt"
 	"verif/engine/explore"
+	"verif/engine/imapc"
 	"verif/engine/vconn"
 	"verif/engine/world"
 )
@@ -111,6 +112,12 @@ func c03gridCall(raw json.RawMessage) (any, error) {
 				cmd, wantInbox, wantOther = `MOVE 1:* other`, 0, cs.N
 			case "copy-same":
 				cmd = `COPY 1:* INBOX`
+			case "copyuid-other": // C04: the UIDs announced in COPYUID are where the messages are found
+				cmd, wantOther = `COPY 1:* other`, cs.N
+			case "moveuid-other":
+				cmd, wantInbox, wantOther = `UID MOVE 1:* other`, 0, cs.N
+			case "conn-arrival": // C02: a second session learns about a connector batch of N messages
+				return connArrival(w, s, cs, res, outcomes)
 			default:
 				return fmt.Errorf("unknown op %q", cs.Op)
 			}
@@ -163,6 +170,37 @@ func c03gridCall(raw json.RawMessage) (any, error) {
 			}
 			check(inbox, wantFlags)
 			check(other, "")
+			if strings.HasSuffix(cs.Op, "uid-other") {
+				// COPYUID <validity> <source uids> <destination uids>: pairwise, the destination UID must hold the
+				// message that has the source UID
+				m := copyUIDRe.FindStringSubmatch(strings.Join(r.Lines(), " "))
+				if m == nil {
+					res.Viol = append(res.Viol, enumt.Viol{Prop: "C04", Clause: "copyuid-missing", Sig: cs.Op, Msg: fmt.Sprintf("%d messages, %s: no COPYUID in %q", cs.N, cmd, r.Tagged.Text), Input: cs})
+				} else {
+					src, dst := expandUIDs(m[2]), expandUIDs(m[3])
+					byUID := map[uint32]string{}
+					for _, x := range other.Msgs {
+						byUID[x.UID] = x.Remote
+					}
+					bad, first := 0, ""
+					if len(src) != cs.N || len(dst) != cs.N {
+						bad, first = 1, fmt.Sprintf("COPYUID names %d source and %d destination UIDs for %d messages", len(src), len(dst), cs.N)
+					} else {
+						for i := range src {
+							want := fmt.Sprintf("c-g%04d", int(src[i])-1) // source UID u holds message g(u-1)
+							if byUID[dst[i]] != want {
+								bad++
+								if first == "" {
+									first = fmt.Sprintf("source UID %d (%s) announced as destination UID %d, which holds %q", src[i], want, dst[i], byUID[dst[i]])
+								}
+							}
+						}
+					}
+					if bad > 0 {
+						res.Viol = append(res.Viol, enumt.Viol{Prop: "C04", Clause: "announced-uid", Sig: cs.Op, Msg: fmt.Sprintf("%d messages, %s: %d wrong COPYUID pairs, first: %s", cs.N, cmd, bad, first), Input: cs})
+					}
+				}
+			}
 			outcomes[fmt.Sprintf("%s|%d|%d|%d", cs.Op, cs.N, len(inbox.Msgs), len(other.Msgs))] = true
 			if len(res.Samples) < 2 {
 				res.Samples = append(res.Samples, map[string]any{"case": cs, "cmd": cmd, "inbox": len(inbox.Msgs), "other": len(other.Msgs)})
@@ -177,4 +215,57 @@ func c03gridCall(raw json.RawMessage) (any, error) {
 		res.Outcomes = append(res.Outcomes, k)
 	}
 	return res, nil
+}
+
+// connArrival: an observer has INBOX selected; the connector creates N more messages in one batch; after NOOP the
+// observer must have been told about all of them and its rows must equal a fresh session's.
+func connArrival(w *world.World, s *world.Sess, cs GridCase, res *enumt.Result, outcomes map[string]bool) error {
+	batch := vconn.Spec{Kind: "MessagesCreated", Mboxes: []string{"0"}}
+	for i := 0; i < cs.N; i++ {
+		batch.Msgs = append(batch.Msgs, fmt.Sprintf("c-h%04d", i))
+		batch.Keys = append(batch.Keys, fmt.Sprintf("h%04d", i))
+	}
+	if r := w.Inject(0, batch); r.Err != "" || !r.Done {
+		return fmt.Errorf("batch: %+v", r)
+	}
+	_ = w.Barrier(s)
+	res.Evaluations++
+	r := s.C.Cmd("NOOP")
+	exists := -1
+	for _, u := range r.Untagged {
+		if p := imapc.ParseUntagged(u); p.Kind == "EXISTS" {
+			exists = p.N
+		}
+	}
+	add := func(clause, msg string) {
+		res.Viol = append(res.Viol, enumt.Viol{Prop: "C02", Clause: clause, Sig: "conn-arrival", Msg: fmt.Sprintf("observer with %d messages, connector batch of %d more: %s", cs.N, cs.N, msg), Input: cs})
+	}
+	if exists != 2*cs.N {
+		add("grid-exists", fmt.Sprintf("NOOP announced %d EXISTS, the mailbox holds %d", exists, 2*cs.N))
+	}
+	own, _ := s.C.Cmd(probeCmd), 0
+	var rows []*imapc.FetchRow
+	for _, u := range own.Untagged {
+		if p := imapc.ParseUntagged(u); p.Kind == "FETCH" {
+			rows = append(rows, p.Row)
+		}
+	}
+	v, err := ReadDB(w, 0)
+	if err != nil {
+		return err
+	}
+	inbox := v.Mbox("INBOX")
+	if len(rows) != len(inbox.Msgs) {
+		add("grid-converge", fmt.Sprintf("the observer sees %d messages, the mailbox holds %d", len(rows), len(inbox.Msgs)))
+	} else {
+		sortRows(rows)
+		for i := range rows {
+			if rows[i].UID != inbox.Msgs[i].UID {
+				add("grid-converge", fmt.Sprintf("position %d: observer has UID %d, mailbox has UID %d", i+1, rows[i].UID, inbox.Msgs[i].UID))
+				break
+			}
+		}
+	}
+	outcomes[fmt.Sprintf("conn-arrival|%d|%d", cs.N, exists)] = true
+	return nil
 }
